@@ -479,3 +479,21 @@ def closure_bodies(facts, body, recursive=True):
 
 def describe_call(t, f):
     return pp.term(t)
+
+
+class PathProv(Prov):
+    """Provenance restricted to the statements/calls of one CFG path (no merging across match arms)."""
+
+    def __init__(self, body, path):
+        self.body = body
+        self.defs = {}
+        blocks_on_path = [bb for bb, _ in path]
+        for bb in blocks_on_path:
+            bl = body["blocks"][bb]
+            for s in bl["stmts"]:
+                if s["k"] == "assign" and not s["place"]["p"]:
+                    self.defs.setdefault(s["place"]["l"], [])
+                    self.defs[s["place"]["l"]] = [("rv", s["rv"], s.get("line"))]   # last write on the path wins
+            t = bl["term"]
+            if t["k"] == "call" and not t["dest"]["p"]:
+                self.defs[t["dest"]["l"]] = [("call", t, bl["line"])]
